@@ -49,7 +49,8 @@ Proof.
   intros Hnd. inversion Hnd as [|? ? Hx Ht]; subst.
   destruct (N.eqb_spec name (e_name x)) as [Heq|Hne]; cbn [negb].
   - intros [= <-]. subst name.
-    fold (delE (e_name x) t). rewrite (delE_notin _ _ Hx). cbn [sumN fold_right]. lia.
+    pose proof (delE_notin _ _ Hx) as Hd. unfold delE in Hd. rewrite Hd.
+    unfold sumN. cbn [map fold_right]. lia.
   - intros Hf. cbn [map sumN fold_right]. specialize (IH Ht Hf). unfold sumN in IH. lia.
 Qed.
 
@@ -100,8 +101,8 @@ Qed.
 
 Lemma delP_idem t x l : delP t (x :: delP t l) = if N.eqb t (fst x) then delP t l else x :: delP t l.
 Proof.
-  unfold delP at 1. cbn [filter]. fold (delP t (delP t l)).
-  rewrite (delP_notin t (delP t l) (delP_not_in t l)).
+  pose proof (delP_notin t (delP t l) (delP_not_in t l)) as Hd.
+  unfold delP at 1. cbn [filter]. unfold delP at 1 in Hd. rewrite Hd.
   destruct (N.eqb t (fst x)); reflexivity.
 Qed.
 
@@ -109,7 +110,7 @@ Lemma lookupP_delP t l : lookupP t (delP t l) = None.
 Proof.
   unfold lookupP. destruct (find (fun x => N.eqb t (fst x)) (delP t l)) as [x|] eqn:E; [|reflexivity].
   apply find_some in E. destruct E as [Hi He]. apply N.eqb_eq in He.
-  exfalso. apply (delP_not_in t l). rewrite He. apply in_map. exact Hi.
+  exfalso. apply (delP_not_in t l). rewrite He at 1. apply in_map. exact Hi.
 Qed.
 
 Lemma out_delP t l p :
@@ -119,10 +120,13 @@ Proof.
   unfold lookupP, delP, outstanding. induction l as [|x r IH]; cbn [find filter map]; [discriminate|].
   intros Hnd. inversion Hnd as [|? ? Hx Ht]; subst.
   destruct (N.eqb_spec t (fst x)) as [Heq|Hne]; cbn [negb].
-  - intros [= <-]. subst t. fold (delP (fst x) r). rewrite (delP_notin _ _ Hx).
-    cbn [sumN fold_right]. lia.
+  - intros [= <-]. subst t. pose proof (delP_notin _ _ Hx) as Hd. unfold delP in Hd. rewrite Hd.
+    unfold sumN. cbn [map fold_right]. lia.
   - intros Hf. cbn [map sumN fold_right]. specialize (IH Ht Hf). unfold sumN in IH. lia.
 Qed.
+
+Lemma outstanding_cons x l : outstanding (x :: l) = phase_size (snd x) + outstanding l.
+Proof. reflexivity. Qed.
 
 (* ---------- the invariant ---------- *)
 Record INV (max : N) (y : sys) : Prop := mkINV {
@@ -202,7 +206,7 @@ Proof.
     destruct (N.ltb_spec max (c_total c + sz)); cbn [fst].
     + constructor; assumption.
     + constructor; unfold total, held, reserved; cbn [s_c s_pend c_max c_ents c_total map fst]; try assumption; try lia.
-      * unfold outstanding in *. cbn [map snd phase_size sumN fold_right]. unfold sumN in Hb. lia.
+      * rewrite outstanding_cons. cbn [snd phase_size]. lia.
       * constructor; [apply lookupP_none; exact El | exact Hi].
   - (* PEnd *)
     destruct (lookupP t pend) as [[name sz|sz]|] eqn:El; [|exact H|exact H].
@@ -214,7 +218,7 @@ Proof.
       destruct H as [Hm Hb Hbu Hn Hi]. unfold total, held, reserved in *. cbn [s_c s_pend] in *.
       pose proof (out_delP _ _ _ Hi El) as Ho. cbn [phase_size] in Ho.
       constructor; unfold total, held, reserved; cbn [s_c s_pend map fst]; try assumption.
-      * unfold outstanding in *. cbn [map snd phase_size sumN fold_right]. unfold sumN in *. lia.
+      * rewrite outstanding_cons. cbn [snd phase_size]. lia.
       * constructor; [apply delP_not_in | apply NoDup_delP; exact Hi].
     + (* Add: the reservation becomes the entry *)
       destruct H as [Hm Hb Hbu Hn Hi]. unfold total, held, reserved in *. cbn [s_c s_pend] in *.
@@ -233,4 +237,319 @@ Proof.
     + apply remove_batch_inv. exact H.
     + exact H.
     + exact H.
+Qed.
+
+(* ---------- lifting to the CAStore-level operations and to histories ---------- *)
+Definition op_ok (max : N) (o : op) : bool := proto_op o && nowrap_op max o.
+
+Lemma op_ok_A max p : op_ok max (A p) = true -> pop_ok max p = true.
+Proof.
+  unfold op_ok. destruct p as [t name sz|t w now|t|c]; cbn [proto_op nowrap_op pop_ok]; intros H.
+  - apply andb_true_iff in H. tauto.
+  - reflexivity.
+  - reflexivity.
+  - apply andb_true_iff in H. tauto.
+Qed.
+
+Lemma pstep_inv' max y p y1 r :
+  INV max y -> pop_ok max p = true -> pstep true y p = (y1, r) -> INV max y1.
+Proof. intros H Hok E. pose proof (pstep_inv max y p H Hok) as H1. rewrite E in H1. exact H1. Qed.
+
+Lemma step_inv max s o :
+  INV max (sy s) -> op_ok max o = true -> INV max (sy (fst (step true s o))).
+Proof.
+  intros H Hok. destruct o as [p|t w|ok|dt|]; cbn [step].
+  - destruct (pstep true (sy s) p) as [y r] eqn:E. cbn [fst with_sys sy].
+    exact (pstep_inv' _ _ _ _ _ H (op_ok_A _ _ Hok) E).
+  - destruct (lookupP t (s_pend (sy s))) as [[name sz|sz]|]; [|exact H|exact H].
+    destruct (pstep true (sy s) (PEnd t w (clk s))) as [y1 r] eqn:E.
+    assert (H1 : INV max y1) by exact (pstep_inv' max (sy s) (PEnd t w (clk s)) y1 r H eq_refl E).
+    assert (H2 : INV max (fst (pstep true y1 (PRelease t)))) by (apply pstep_inv; [exact H1|reflexivity]).
+    destruct r as [|[|]| |]; cbn [fst with_sys sy]; assumption.
+  - destruct (queue s) as [|[name r] q]; [exact H|].
+    assert (H1 : INV max (fst (pstep true (sy s) (PRaw (CRemove name))))) by (apply pstep_inv; [exact H|reflexivity]).
+    destruct ok; [exact H1|]. destruct (r <? maxretry s); [exact H | exact H1].
+  - exact H.
+  - cbn [fst with_sys sy]. apply pstep_inv; [exact H|reflexivity].
+Qed.
+
+Lemma run_inv max ops : forall s,
+  INV max (sy s) -> forallb (op_ok max) ops = true -> INV max (sy (fst (run true s ops))).
+Proof.
+  induction ops as [|o ops IH]; intros s H Hok; cbn [run]; [exact H|].
+  cbn [forallb] in Hok. apply andb_true_iff in Hok. destruct Hok as [Ho Hops].
+  pose proof (step_inv max s o H Ho) as H1.
+  destruct (step true s o) as [s1 r]. cbn [fst] in H1.
+  specialize (IH s1 H1 Hops). destruct (run true s1 ops) as [s2 rs]. exact IH.
+Qed.
+
+Lemma proto_forallb max ops : proto max ops = forallb (op_ok max) ops.
+Proof. reflexivity. Qed.
+
+Lemma reachable_inv max ttl mr ops :
+  proto max ops = true -> INV max (sy (fst (run true (init max ttl mr) ops))).
+Proof. intros Hp. apply run_inv; [apply INV_init | exact Hp]. Qed.
+
+(* ---------- theorems: balance and budget over all histories ---------- *)
+Lemma balance max ttl mr ops :
+  proto max ops = true ->
+  let y := sy (fst (run true (init max ttl mr) ops)) in
+  total y = held y + reserved y.
+Proof. intros Hp. exact (inv_bal _ _ (reachable_inv max ttl mr ops Hp)). Qed.
+
+Lemma within_budget max ttl mr ops :
+  proto max ops = true ->
+  let y := sy (fst (run true (init max ttl mr) ops)) in
+  total y <= max /\ held y + reserved y <= max.
+Proof.
+  intros Hp y. pose proof (reachable_inv max ttl mr ops Hp) as H. fold y in H.
+  destruct H as [Hm Hb Hbu Hn Hi]. split; [exact Hbu | lia].
+Qed.
+
+(* admission: decided exactly by total + size <= MaxSize (no wrap) *)
+Lemma admission max s t name sz :
+  INV max (sy s) -> sz + max < W64 -> lookupP t (s_pend (sy s)) = None ->
+  step true s (A (PReserve t name sz)) =
+    if max <? total (sy s) + sz then (s, OBool false)
+    else (with_sys s (mkS (mkC (c_max (s_c (sy s))) (c_ents (s_c (sy s))) (total (sy s) + sz))
+                          ((t, Reserved name sz) :: s_pend (sy s))), OBool true).
+Proof.
+  intros H Hw El. cbn [step pstep]. rewrite El. destruct s as [[c pend] q k tl m]. cbn [sy s_c s_pend] in *.
+  rewrite (tryreserve_spec max c pend sz H Hw). unfold total. cbn [s_c].
+  destruct (max <? c_total c + sz); reflexivity.
+Qed.
+
+Lemma never_above_max max ttl mr ops t name sz :
+  proto max ops = true -> sz + max < W64 ->
+  let s := fst (run true (init max ttl mr) ops) in
+  snd (step true s (A (PReserve t name sz))) = OBool true ->
+  total (sy s) + sz <= max /\ total (sy (fst (step true s (A (PReserve t name sz))))) = total (sy s) + sz.
+Proof.
+  intros Hp Hw s Hout. pose proof (reachable_inv max ttl mr ops Hp) as H. fold s in H.
+  destruct (lookupP t (s_pend (sy s))) eqn:El.
+  - cbn [step pstep] in Hout. rewrite El in Hout. discriminate.
+  - rewrite (admission max s t name sz H Hw El) in *.
+    destruct (N.ltb_spec max (total (sy s) + sz)); cbn [snd fst] in *; [discriminate|].
+    split; [assumption | reflexivity].
+Qed.
+
+Lemma admits_when_fits max ttl mr ops t name sz :
+  proto max ops = true -> sz + max < W64 ->
+  let s := fst (run true (init max ttl mr) ops) in
+  lookupP t (s_pend (sy s)) = None -> total (sy s) + sz <= max ->
+  snd (step true s (A (PReserve t name sz))) = OBool true.
+Proof.
+  intros Hp Hw s El Hfit. pose proof (reachable_inv max ttl mr ops Hp) as H. fold s in H.
+  rewrite (admission max s t name sz H Hw El).
+  destruct (N.ltb_spec max (total (sy s) + sz)); [lia | reflexivity].
+Qed.
+
+(* ---------- failed / abandoned / duplicate writes release their reservation ---------- *)
+Definition present (name : N) (y : sys) : bool :=
+  match findE name (c_ents (s_c y)) with Some _ => true | None => false end.
+Definition wt_succeeds (y : sys) (name sz : N) (w : wres) : bool :=
+  match w with WData len => N.eqb len sz && negb (present name y) | WErr => false end.
+
+Lemma prelease_need c pend' t sz :
+  pstep true (mkS c ((t, NeedRelease sz) :: pend')) (PRelease t) =
+  (mkS (fst (cstep c (CRelease sz))) (delP t ((t, NeedRelease sz) :: pend')), OUnit).
+Proof.
+  cbn [pstep s_pend s_c]. unfold lookupP. cbn [find fst]. rewrite N.eqb_refl. reflexivity.
+Qed.
+
+Lemma prelease_none c pend' t :
+  lookupP t pend' = None -> pstep true (mkS c pend') (PRelease t) = (mkS c pend', OUnit).
+Proof. intros E. cbn [pstep s_pend s_c]. rewrite E. reflexivity. Qed.
+
+Definition same_len (sz : N) (w : wres) : bool :=
+  match w with WData len => N.eqb len sz | WErr => false end.
+
+Lemma pend_result c pend t name sz w now :
+  lookupP t pend = Some (Reserved name sz) ->
+  pstep true (mkS c pend) (PEnd t w now) =
+    if wt_succeeds (mkS c pend) name sz w
+    then (mkS (mkC (c_max c) (c_ents c ++ [mkE name sz now]) (c_total c)) (delP t pend), OBool true)
+    else if same_len sz w
+    then (mkS c ((t, NeedRelease sz) :: delP t pend), OBool false)
+    else (mkS (fst (cstep c (CRelease sz))) (delP t pend), OBool false).
+Proof.
+  intros El. cbn [pstep s_c s_pend]. rewrite El. destruct w as [|len]; cbn [wt_succeeds same_len]; [reflexivity|].
+  unfold present. cbn [s_c andb]. destruct (N.eqb_spec len sz) as [->|Hne]; cbn [negb andb]; [|reflexivity].
+  cbn [cstep]. destruct (findE name (c_ents c)); reflexivity.
+Qed.
+
+Lemma wt_end_effect max s t name sz w :
+  INV max (sy s) -> lookupP t (s_pend (sy s)) = Some (Reserved name sz) ->
+  let s' := fst (step true s (WtEnd t w)) in
+  lookupP t (s_pend (sy s')) = None
+  /\ reserved (sy s') + sz = reserved (sy s)
+  /\ (if wt_succeeds (sy s) name sz w
+      then c_ents (s_c (sy s')) = c_ents (s_c (sy s)) ++ [mkE name sz (clk s)] /\ total (sy s') = total (sy s)
+      else c_ents (s_c (sy s')) = c_ents (s_c (sy s)) /\ total (sy s') + sz = total (sy s)).
+Proof.
+  intros H El. cbn [step]. rewrite El. destruct s as [[c pend] q k tl m]. cbn [sy s_c s_pend clk] in *.
+  pose proof (release_inv max c pend t (Reserved name sz) H El) as [Hrel [Htot Hents]]. cbn [phase_size] in *.
+  pose proof (out_delP t pend _ (inv_ids _ _ H) El) as Ho. cbn [phase_size] in Ho.
+  rewrite (pend_result c pend t name sz w k El).
+  destruct (wt_succeeds (mkS c pend) name sz w).
+  - cbn [fst sy s_pend s_c c_ents c_total]. unfold reserved, total. cbn [s_pend s_c c_total].
+    repeat split; try lia. apply lookupP_delP.
+  - destruct (same_len sz w).
+    + rewrite prelease_need. cbn [fst with_sys sy s_pend s_c].
+      rewrite delP_idem. cbn [fst]. rewrite N.eqb_refl.
+      unfold reserved, total. cbn [s_pend s_c].
+      repeat split; try assumption. apply lookupP_delP.
+    + rewrite (prelease_none _ _ _ (lookupP_delP t pend)). cbn [fst with_sys sy s_pend s_c].
+      unfold reserved, total. cbn [s_pend s_c].
+      repeat split; try assumption. apply lookupP_delP.
+Qed.
+
+Lemma failed_write_releases max ttl mr ops t name sz w :
+  proto max ops = true ->
+  let s := fst (run true (init max ttl mr) ops) in
+  lookupP t (s_pend (sy s)) = Some (Reserved name sz) ->
+  let s' := fst (step true s (WtEnd t w)) in
+  lookupP t (s_pend (sy s')) = None
+  /\ reserved (sy s') + sz = reserved (sy s)
+  /\ (if wt_succeeds (sy s) name sz w
+      then c_ents (s_c (sy s')) = c_ents (s_c (sy s)) ++ [mkE name sz (clk s)] /\ total (sy s') = total (sy s)
+      else c_ents (s_c (sy s')) = c_ents (s_c (sy s)) /\ total (sy s') + sz = total (sy s)).
+Proof.
+  intros Hp s El. apply (wt_end_effect max); [|exact El].
+  exact (reachable_inv max ttl mr ops Hp).
+Qed.
+
+(* the same at the granularity of single lock regions (any interleaving): whatever phase a caller
+   is in, its next step that gives the reservation up subtracts exactly its size *)
+Lemma atomic_release max ttl mr ops t p :
+  proto max ops = true ->
+  let s := fst (run true (init max ttl mr) ops) in
+  lookupP t (s_pend (sy s)) = Some p ->
+  let o := match p with Reserved _ _ => A (PEnd t WErr 0%Z) | NeedRelease _ => A (PRelease t) end in
+  let s' := fst (step true s o) in
+  lookupP t (s_pend (sy s')) = None
+  /\ total (sy s') + phase_size p = total (sy s)
+  /\ reserved (sy s') + phase_size p = reserved (sy s)
+  /\ c_ents (s_c (sy s')) = c_ents (s_c (sy s)).
+Proof.
+  intros Hp s El. pose proof (reachable_inv max ttl mr ops Hp) as H. fold s in H.
+  destruct s as [[c pend] q k tl m]. cbn [sy s_c s_pend] in *.
+  pose proof (release_inv max c pend t p H El) as [Hrel [Htot Hents]].
+  pose proof (out_delP t pend _ (inv_ids _ _ H) El) as Ho.
+  destruct p as [name sz|sz]; cbn [step pstep s_c s_pend sy]; rewrite El; cbn [fst with_sys sy s_c s_pend phase_size] in *;
+    unfold total, reserved; cbn [s_c s_pend]; repeat split; try assumption; apply lookupP_delP.
+Qed.
+
+(* no reservation outstanding => the accounted bytes are exactly the bytes stored: nothing leaked *)
+Lemma quiescent_no_leak max ttl mr ops :
+  proto max ops = true ->
+  let y := sy (fst (run true (init max ttl mr) ops)) in
+  s_pend y = [] -> total y = held y.
+Proof.
+  intros Hp y He. pose proof (balance max ttl mr ops Hp) as Hb. fold y in Hb.
+  unfold reserved in Hb. rewrite He in Hb. cbn in Hb. lia.
+Qed.
+
+(* ---------- the executable oracle is sound on the model ---------- *)
+Lemma praw_pend y c : s_pend (fst (pstep true y (PRaw c))) = s_pend y.
+Proof. cbn [pstep]. destruct (cstep (s_c y) c). reflexivity. Qed.
+
+Lemma gstep_tracks_p y p :
+  gstep (s_pend y) (A p) (snd (pstep true y p)) = s_pend (fst (pstep true y p)).
+Proof.
+  destruct y as [c pend]. cbn [s_pend]. destruct p as [t name sz|t w now|t|r].
+  - cbn [pstep gstep s_pend s_c]. destruct (lookupP t pend) eqn:El; cbn [fst snd s_pend]; [rewrite El; reflexivity|].
+    cbn [cstep]. destruct (c_max c <? (c_total c + sz) mod W64); cbn [fst snd s_pend]; rewrite El; reflexivity.
+  - destruct (lookupP t pend) as [[name sz|sz]|] eqn:El.
+    + rewrite (pend_result c pend t name sz w now El). cbn [gstep].
+      destruct (wt_succeeds (mkS c pend) name sz w) eqn:Ew; cbn [fst snd s_pend]; rewrite El; [reflexivity|].
+      destruct w as [|len]; cbn [same_len]; [reflexivity|].
+      destruct (N.eqb len sz); reflexivity.
+    + cbn [pstep gstep s_pend]. rewrite El. cbn [fst snd s_pend]. rewrite El. reflexivity.
+    + cbn [pstep gstep s_pend]. rewrite El. cbn [fst snd s_pend]. rewrite El. reflexivity.
+  - cbn [pstep gstep s_pend s_c]. destruct (lookupP t pend) as [[name sz|sz]|] eqn:El;
+      cbn [fst snd s_pend]; try rewrite El; reflexivity.
+  - cbn [pstep gstep s_pend s_c]. destruct (cstep c r). reflexivity.
+Qed.
+
+Lemma gstep_tracks s o :
+  gstep (s_pend (sy s)) o (snd (step true s o)) = s_pend (sy (fst (step true s o))).
+Proof.
+  destruct o as [p|t w|ok|dt|]; cbn [step].
+  - pose proof (gstep_tracks_p (sy s) p) as Hp.
+    destruct (pstep true (sy s) p) as [y r]. cbn [fst snd with_sys sy] in *. exact Hp.
+  - destruct s as [[c pend] q k tl m]. cbn [sy s_pend clk].
+    cbn [gstep]. destruct (lookupP t pend) as [[name sz|sz]|] eqn:El; cbn [fst snd sy s_pend]; try reflexivity.
+    rewrite (pend_result c pend t name sz w k El).
+    destruct (wt_succeeds (mkS c pend) name sz w).
+    + cbn [fst snd sy s_pend]. reflexivity.
+    + destruct (same_len sz w).
+      * rewrite prelease_need. cbn [fst snd with_sys sy s_pend].
+        rewrite delP_idem. cbn [fst]. rewrite N.eqb_refl. reflexivity.
+      * rewrite (prelease_none _ _ _ (lookupP_delP t pend)). cbn [fst snd with_sys sy s_pend]. reflexivity.
+  - cbn [gstep]. destruct (queue s) as [|[name r] q']; [reflexivity|].
+    destruct ok; cbn [fst sy]; [apply eq_sym, praw_pend|].
+    destruct (r <? maxretry s); cbn [fst sy]; [reflexivity | apply eq_sym, praw_pend].
+  - reflexivity.
+  - cbn [gstep fst with_sys sy]. apply eq_sym, praw_pend.
+Qed.
+
+Lemma ents_bytes_snap (l : list entry) :
+  ents_bytes (map (fun e => (e_name e, e_size e)) l) = sumN (map e_size l).
+Proof. unfold ents_bytes. rewrite map_map. reflexivity. Qed.
+
+Lemma check_from_sound max ops : forall s,
+  INV max (sy s) -> forallb (op_ok max) ops = true ->
+  check_from max (s_pend (sy s)) (total (sy s)) ops (snd (run true s ops)) = true.
+Proof.
+  induction ops as [|o ops IH]; intros s H Hok; cbn [run]; [reflexivity|].
+  cbn [forallb] in Hok. apply andb_true_iff in Hok. destruct Hok as [Ho Hops].
+  pose proof (step_inv max s o H Ho) as H1.
+  pose proof (gstep_tracks s o) as Hg.
+  destruct (step true s o) as [s1 r] eqn:E. cbn [fst snd] in H1, Hg.
+  specialize (IH s1 H1 Hops). destruct (run true s1 ops) as [s2 rs]. cbn [snd] in *.
+  cbn [check_from fst snd]. rewrite Hg.
+  apply andb_true_iff. split; [apply andb_true_iff; split|].
+  - destruct o as [[t name sz|?|?|?]|?|?|?|]; try reflexivity.
+    destruct r as [|[|]|?|?]; try reflexivity.
+    destruct (lookupP t (s_pend (sy s))) eqn:El; [reflexivity|].
+    unfold op_ok in Ho. cbn [proto_op nowrap_op andb] in Ho. apply N.ltb_lt in Ho.
+    rewrite (admission max s t name sz H Ho El) in E.
+    destruct (N.ltb_spec max (total (sy s) + sz)); inversion E. apply N.leb_le. assumption.
+  - unfold obs_ok, snap. destruct H1 as [Hm Hb Hbu Hn Hi]. unfold total, held, reserved in *.
+    rewrite ents_bytes_snap. apply andb_true_iff. split; [apply N.leb_le; exact Hbu | apply N.eqb_eq; exact Hb].
+  - unfold snap at 1. cbn [fst]. exact IH.
+Qed.
+
+Lemma check_sound max ttl mr ops :
+  C13_cache_check max ops (snd (run true (init max ttl mr) ops)) = true.
+Proof.
+  unfold C13_cache_check. destruct (proto max ops) eqn:Hp; [|reflexivity].
+  apply (check_from_sound max ops (init max ttl mr)); [apply INV_init | exact Hp].
+Qed.
+
+(* ---------- the code as pinned (fixed = false) violates the property ---------- *)
+Lemma size_mismatch_over_budget :
+  exists max ops, proto max ops = true /\
+    let y := sy (fst (run false (init max 1000 1) ops)) in
+    max < held y /\ total y <> held y + reserved y.
+Proof.
+  exists 10, [A (PReserve 1 0 1); WtEnd 1 (WData 100)]. vm_compute. repeat split; congruence.
+Qed.
+
+Lemma size_mismatch_leak :
+  exists max ops, proto max ops = true /\
+    let y := sy (fst (run false (init max 1000 1) ops)) in
+    s_pend y = [] /\ c_ents (s_c y) = [] /\ total y = 9.
+Proof.
+  exists 100, [A (PReserve 1 0 10); WtEnd 1 (WData 1); Drain true]. vm_compute. repeat split.
+Qed.
+
+(* outside the no-wrap guard a reservation is admitted although total + size > MaxSize *)
+Lemma wrap_admits :
+  exists max ops t name sz,
+    let s := fst (run true (init max 1000 1) ops) in
+    snd (step true s (A (PReserve t name sz))) = OBool true /\ max < total (sy s) + sz.
+Proof.
+  exists 100, [A (PReserve 1 0 10)], 2, 1, 18446744073709551611. vm_compute. split; reflexivity.
 Qed.
